@@ -17,7 +17,7 @@ clause -> what is compared
                           split() reader
 
 Deviation-bounded enumeration: default execution = plain ASCII labels, utf-8, default dialect,
-indent 0, string API; a deviation = one name position carrying a label from the special alphabet
+indent 0, string AND file API (utf-8); a deviation = one name position carrying a label from the special alphabet
 of the format, or one changed option.  All executions with <= 1 deviation (quick) / <= 2 (thorough),
 crossed with EVERY fill pattern of the small shapes.
 """
@@ -300,6 +300,9 @@ def run_tables(shard, tier):
                     'deviations': common.jsonable(combo)}
             try:
                 res = execute(fmt, objs, props, rows, cfg, ctr)
+                if cfg['api'] == 'string':
+                    # the default execution runs the file API (utf-8) as well
+                    res += execute(fmt, objs, props, rows, dict(cfg, api='file'), ctr)
             except common.HarnessError:
                 raise
             except AssertionError as e:
@@ -446,6 +449,8 @@ def replay(v):
             rows = space.rows_of(n, m, c['code'])
             try:
                 res = execute(c['format'], objs, props, rows, cfg, ctr)
+                if cfg['api'] == 'string':
+                    res += execute(c['format'], objs, props, rows, dict(cfg, api='file'), ctr)
             except AssertionError as e:
                 raise common.HarnessError(str(e))
             except Exception as e:
